@@ -24,7 +24,7 @@ SPECS["C16"] = dict(
     assumptions=["timestamps are not NaN (a model scheduling at NaN violates the API contract)"],
     outside=["payloads longer than the stated bound", "NaN timestamps"],
     queries=[
-        Q("order_p8", "c16_order.c", defs={"PLMAX": 8}, unwind=10, bounds="3 arbitrary messages, payload size 0..8, all flags/types/timestamps", timeout=300),
+        Q("order_p36", "c16_order.c", defs={"PLMAX": 36}, unwind=38, bounds="3 arbitrary messages, payload size 0..36 (past the 32-byte inline payload), all flags/types/timestamps", timeout=600),
         Q("order_p40", "c16_order.c", tier="thorough", defs={"PLMAX": 40}, unwind=42, bounds="3 arbitrary messages, payload size 0..40 (past the 32-byte inline payload)", timeout=1200),
         Q("order_p64", "c16_order.c", tier="thorough", defs={"PLMAX": 64}, unwind=66, bounds="3 arbitrary messages, payload size 0..64", timeout=1800, solver="kissat"),
     ],
@@ -107,16 +107,18 @@ SPECS["C14"] = dict(
     outside=["more than 64 LPs (symbolic 64-bit multiply-then-divide: no verdict beyond)", "ranks > LPs"],
     queries=[
         c14("node_16_4", "harness_node", "quick", 16, 4, cost=3),
-        c14("thread_16_t2", "harness_thread", "quick", 16, 4, ct=2, cost=3),
-        c14("thread_16_t3", "harness_thread", "quick", 16, 4, ct=3, cost=5),
-        c14("thread_16_t4", "harness_thread", "quick", 16, 4, ct=4, cost=6),
-        c14("thread_16_t1", "harness_thread", "quick", 16, 4, ct=1),
+        c14("thread_8_t2", "harness_thread", "quick", 8, 4, ct=2, cost=3),
+        c14("thread_8_t3", "harness_thread", "quick", 8, 4, ct=3, cost=5),
+        c14("thread_8_t4", "harness_thread", "quick", 8, 4, ct=4, cost=6),
+        c14("thread_8_t1", "harness_thread", "quick", 8, 4, ct=1),
+        c14("thread_16_t3", "harness_thread", "thorough", 16, 4, ct=3, timeout=1800),
+        c14("thread_16_t4", "harness_thread", "thorough", 16, 4, ct=4, timeout=1800),
         c14("life_5_n2t2", "harness_lifecycle", "quick", 5, 4, cn=2, ct=2, cost=6),
         c14("life_8_n2t3", "harness_lifecycle", "thorough", 8, 4, cn=2, ct=3, timeout=1800, mem_gb=20),
         c14("life_8_n1t2", "harness_lifecycle", "thorough", 8, 4, cn=1, ct=2, timeout=1800, mem_gb=20),
         c14("life_8_n3t2", "harness_lifecycle", "thorough", 8, 4, cn=3, ct=2, timeout=1800, mem_gb=20),
     ] + [c14("node_64_n%d" % n, "harness_node", "thorough", 64, 8, cn=n, timeout=1800, solver="kissat") for n in range(1, 9)]
-      + [c14("thread_32_t%d" % t, "harness_thread", "thorough", 32, 8, ct=t, timeout=1800, solver="kissat") for t in range(1, 9)],
+      + [c14("thread_12_t%d" % t, "harness_thread", "thorough", 12, 8, ct=t, timeout=1800) for t in range(5, 9)],
 )
 
 
@@ -172,4 +174,45 @@ SPECS["C07"] = dict(
         c07("run_2lp_8ops", "harness_run", "thorough", 2, 8, timeout=1800),
         c07("run_3lp_7ops", "harness_run", "thorough", 3, 7, timeout=1800),
     ],
+)
+
+VISIT_US = {"checkpoint_full_take.0": 34, "checkpoint_full_take.1": 34, "checkpoint_full_restore.0": 34, "checkpoint_full_restore.1": 34,
+            "harness_visit.0": 34, "harness_visit.1": 34}
+
+
+def c05(name, func, tier, tot, blk, harness="c05_ckpt.c", timeout=900, defs=None, **kw):
+    d = {"VERIF_B_TOTAL_EXP": "%dU" % tot, "VERIF_B_BLOCK_EXP": "%dU" % blk}
+    d.update(defs or {})
+    leaves = 1 << (tot - blk)
+    us = {k: 2 * (2 * leaves) + 2 for k in VISIT_US}
+    if harness != "c05_ckpt.c":
+        us = {}
+    us.update(kw.pop("unwindset_extra", {}))
+    return Q(name, harness, tier=tier, func=func, defs=d, unwind=max(1 << tot, 2 * leaves) + 2, unwindset=us,
+             timeout=timeout, bounds=kw.pop("bounds", "arena of %d leaves x %d-byte blocks, arbitrary invariant-satisfying tree and arbitrary memory content" % (leaves, 1 << blk)), **kw)
+
+
+MASKS = [(at, now) for now in range(1, 8) for at in range(0, 8) if (at & now) == at]
+SPECS["C05"] = dict(
+    level="proof",
+    encodes=["mm/buddy/ckpt.c:buddy_tree_visit", "checkpoint_full_take", "checkpoint_full_restore",
+             "mm/buddy/multi.c:model_allocator_checkpoint_take", "model_allocator_checkpoint_restore", "model_allocator_lp_init",
+             "lp/process.c:do_rollback", "silent_execution", "lib/random/random.c (generator context in rollbackable memory)"],
+    assumptions=["arena geometry shrunk through hook H1 (8 or 16 leaves; the code is parametric in both exponents)",
+                 "multi-arena harness: per-arena checkpoint_full_take/restore are contract stubs (discharged by the take/restore/roundtrip queries on arbitrary trees); arenas have concrete shapes per query, the driver enumerates every (arenas at checkpoint, arenas at rollback) combination of up to 3 arenas",
+                 "harness allocator hands out fixed-size chunks and records the requested size (no symbolic-size objects)",
+                 "memcpy/memmove/memset are byte-loop models"],
+    outside=["the real 64 KiB geometry", "more than 3 arenas", "incremental checkpointing (disabled in the code base)"],
+    queries=[
+        c05("visit_8", "harness_visit", "quick", 5, 2),
+        c05("visit_16", "harness_visit", "thorough", 6, 2, timeout=1800),
+        c05("take_8", "harness_take", "quick", 4, 1, cost=5),
+        c05("restore_8", "harness_restore", "quick", 4, 1, cost=5),
+        c05("foreign_8", "harness_foreign", "quick", 4, 1),
+        c05("roundtrip_8x2", "harness_roundtrip", "thorough", 4, 1, timeout=2400, mem_gb=20),
+        c05("roundtrip_8x4", "harness_roundtrip", "thorough", 5, 2, timeout=3000, mem_gb=24),
+        c05("log_4", "harness_log", "quick", 4, 1, harness="c05_multi.c", unwindset_extra={"memmove.0": 70, "memmove.1": 70}, bounds="checkpoint log of <= 4 entries with arbitrary increasing positions, arbitrary rollback target / committed frontier"),
+    ] + [c05("multi_at%d_now%d" % (at, now), "harness_restore", "quick", 4, 1, harness="c05_multi.c", defs={"ATCK": at, "NOW": now},
+             bounds="arenas at checkpoint = mask %d, arenas at rollback = mask %d (of 3, ascending addresses), up to 2 newer checkpoints, arbitrary target" % (at, now))
+         for (at, now) in MASKS],
 )
